@@ -82,9 +82,31 @@ def mk_mf(rows, variables, plated=()):
     return MeanField(d)
 
 
+def typed(x, ty):
+    """unusual but legal numeric types for a damping factor"""
+    if ty == "int" and float(x) == int(x):
+        return int(x)
+    if ty == "np":
+        return np.float64(x)
+    if ty == "arr0":
+        return np.array(x)
+    return x
+
+
+# ONE updater object per (class, parameters) for the whole driver process: an updater holds no state of the graph it
+# was last used on, so re-using it on another graph / another approximation must give a fresh object's answer
+_UPD = {}
+
+
+def shared(key, make):
+    if key not in _UPD:
+        _UPD[key] = make()
+    return _UPD[key]
+
+
 def make_delta(d, variables):
     if d["t"] == "scalar":
-        return unhex(d["d"])
+        return typed(unhex(d["d"]), d.get("ty"))
     if d["t"] == "pervar":
         return MeanField({variables[v // FLAT_W]: unhex(x) for v, x in d["ds"] if v % FLAT_W == 0})
     raise ValueError(d["t"])
@@ -150,6 +172,29 @@ def state_bits(approx, factors, index):
     return [bits(fm[f], index) for f in factors]
 
 
+def caller_edits(ap):
+    """the caller edits every container an EPMeanField hands out (not the messages inside): the object's own
+    state must not be reachable through them"""
+    ap.factor_mean_field.clear()
+    vm = ap.variable_messages
+    for l in vm.values():
+        l.clear()
+    vm.clear()
+    ap.variable_message_count.clear()
+    g_ = ap.mean_field
+    if isinstance(g_, dict):
+        dict.clear(g_)
+
+
+def global_by_variable(ap, index):
+    """second route to the global approximation: the product, per variable, of variable_messages"""
+    import functools
+    import operator
+    vm = ap.variable_messages
+    return nat(MeanField({v: functools.reduce(operator.mul, ms) for v, ms in vm.items() if ms}), index), \
+        sorted([index[v] * FLAT_W, n] for v, n in ap.variable_message_count.items())
+
+
 def run_raw(c):
     variables, index, factors, approx, pl, plated = build_raw(c)
     out = {"state0": state_obs(approx, factors, index), "global0": nat(approx.mean_field, index), "steps": []}
@@ -199,7 +244,8 @@ def run_raw(c):
         elif s["via"] == "project_default":
             approx2, status = approx.project_mean_field(new, fa)
         elif s["via"] == "simple":
-            approx2, status = SimplerUpdater(unhex(d["d"])).update_model_approx(new, fa, approx, status_in)
+            upd = shared(("simple", d["d"], d.get("ty")), lambda: SimplerUpdater(typed(unhex(d["d"]), d.get("ty"))))
+            approx2, status = upd.update_model_approx(new, fa, approx, status_in)
         elif s["via"] == "factor":
             upd = FactorUpdater({f: unhex(d["d"])}, default=unhex(s["other_delta"]))
             approx2, status = upd.update_model_approx(new, fa, approx, status_in)
@@ -208,9 +254,11 @@ def run_raw(c):
             upd = FactorUpdater({other: unhex(s["other_delta"])} if other is not f else {}, default=unhex(d["d"]))
             approx2, status = upd.update_model_approx(new, fa, approx, status_in)
         elif s["via"] == "dynamic":
-            approx2, status = DynamicUpdater(unhex(d["d0"])).update_model_approx(new, fa, approx, status_in)
+            upd = shared(("dynamic", d["d0"]), lambda: DynamicUpdater(unhex(d["d0"])))
+            approx2, status = upd.update_model_approx(new, fa, approx, status_in)
         else:
             raise ValueError(s["via"])
+        caller_edits(approx2)
         after_old = before if inplace else state_bits(approx, factors, index)
         after = state_bits(approx2, factors, index)
         post = None
@@ -236,6 +284,7 @@ def run_raw(c):
         out["steps"].append({
             "retained_changed": retained_changed, "n_retained": len(retained),
             "post": post, "global_alias": nat(approx2.model_dist, index),
+            "global_vm": global_by_variable(approx2, index)[0], "vm_count": global_by_variable(approx2, index)[1],
             "cavity": pre["cavity"], "own": pre["own"], "model": pre["model"],
             "msg": nat(approx2.factor_mean_field[f], index), "global": nat(approx2.mean_field, index),
             "state": state_obs(approx2, factors, index),
@@ -337,11 +386,13 @@ class FakePool:
 class Recorder(AbstractFactorOptimiser):
     """scripted factor optimiser: the k-th call for a factor returns the k-th scripted outcome"""
 
-    def __init__(self, scripts, factors, variables, index):
+    def __init__(self, scripts, factors, variables, index, tag="default", share=None):
         super().__init__()
         self.scripts, self.factors, self.variables, self.index = scripts, factors, variables, index
-        self.calls = {}
-        self.seen = []
+        # sibling recorders (a factor's own optimiser / an entry of factor_optimisers) read the same scripts
+        self.calls = share.calls if share else {}
+        self.seen = share.seen if share else []
+        self.tag = tag
 
     def optimise(self, factor_approx, status=Status()):
         i = self.factors.index(factor_approx.factor)
@@ -349,22 +400,52 @@ class Recorder(AbstractFactorOptimiser):
         self.calls[i] = k + 1
         self.seen.append({"f": i, "cavity": nat(factor_approx.cavity_dist, self.index),
                           "own": nat(factor_approx.factor_dist, self.index),
-                          "model": nat(factor_approx.model_dist, self.index)})
+                          "model": nat(factor_approx.model_dist, self.index), "who": self.tag})
         oc = self.scripts[i][k]
         if oc["t"] == "raise":
-            raise ValueError("scripted failure")
+            raise EXC_KINDS[oc.get("exc", "ValueError")]("scripted failure")
+        if oc.get("warn"):
+            import warnings
+            warnings.warn("scripted warning from the user's optimiser", RuntimeWarning)
         new = MeanField({self.variables[v]: msg(mu, sg) for v, mu, sg in oc["new"]})
         return new, Status(success=oc["success"], result=oc["token"])
+
+
+EXC_KINDS = {"ValueError": ValueError, "ZeroDivisionError": ZeroDivisionError, "FloatingPointError": FloatingPointError,
+             "OverflowError": OverflowError, "RuntimeError": RuntimeError, "NotImplementedError": NotImplementedError,
+             "RecursionError": RecursionError, "LinAlgError": np.linalg.LinAlgError, "UnicodeError": UnicodeError}
+
+
+def access_row(fh):
+    pos = {id(a): k for k, (a, _) in enumerate(fh.history)}
+    row = {}
+    for name in ("latest_successful", "previous_successful", "latest_update", "previous_update"):
+        try:
+            row[name] = pos[id(getattr(fh, name))]
+        except exc.HistoryException:
+            row[name] = None
+    try:
+        row["latest_result"] = [fh.latest_result]
+    except exc.HistoryException:
+        row["latest_result"] = None
+    return row
 
 
 class LogHistory(EPHistory):
     def __init__(self, *a, **kw):
         super().__init__(*a, **kw)
         self.log = []
+        self.mid = []
+        self.on_entry = None
 
     def __call__(self, factor, approx, status=Status()):
         self.log.append((factor, approx, status))
-        return super().__call__(factor, approx, status)
+        out = super().__call__(factor, approx, status)
+        # read - append - read: the accessors of the SAME FactorHistory object are read after every entry
+        self.mid.append(access_row(self[factor]))
+        if self.on_entry:
+            self.on_entry()
+        return out
 
 
 def make_history(factors, stop, default=False):
@@ -382,9 +463,9 @@ def make_history(factors, stop, default=False):
 
 def make_updater(d, factors):
     if d["t"] == "scalar":
-        return SimplerUpdater(unhex(d["d"]))
+        return shared(("simple", d["d"], d.get("ty")), lambda: SimplerUpdater(typed(unhex(d["d"]), d.get("ty"))))
     if d["t"] == "dynamic":
-        return DynamicUpdater(unhex(d["d0"]))
+        return shared(("dynamic", d["d0"]), lambda: DynamicUpdater(unhex(d["d0"])))
     raise ValueError(d["t"])
 
 
@@ -403,20 +484,22 @@ def access_obs(hist, factors):
     out = []
     for f in factors:
         fh = hist[f]
-        pos = {id(a): k for k, (a, _) in enumerate(fh.history)}
-        row = {}
-        for name in ("latest_successful", "previous_successful", "latest_update", "previous_update"):
-            try:
-                row[name] = pos[id(getattr(fh, name))]
-            except exc.HistoryException:
-                row[name] = None
-        try:
-            row["latest_result"] = [fh.latest_result]
-        except exc.HistoryException:
-            row["latest_result"] = None
+        row = access_row(fh)
         row["statuses"] = [[bool(s.success), bool(s.updated), s.result] for _, s in fh.history]
         out.append(row)
     return out
+
+
+def split_run(opt, approx, max_steps, split, hist, between=None):
+    """one optimiser used twice: run(a) then run(b) on what the first call returned, with the same history; `between`
+    may change public attributes of the optimiser.  Without a stop this is one run of a + b sweeps."""
+    if split is None:
+        return opt.run(approx, max_steps=max_steps), None
+    mid = opt.run(approx, max_steps=split)
+    n_mid = len(hist.log)
+    if between:
+        between(opt)
+    return opt.run(mid, max_steps=max_steps - split), n_mid
 
 
 def run_par(c):
@@ -424,22 +507,46 @@ def run_par(c):
     rec = Recorder(c["scripts"], factors, variables, index)
     hist = make_history(factors, c.get("stop"))
     order = [factors[i] for i in c["order"]]
+    kw = {"default_optimiser": rec}
+    route = c.get("route", "default")
+    if route == "by_factor":
+        # the second way to say which optimiser fits which factor: an explicit dict, no default
+        # (without a default optimiser the code visits the factors in the order of THIS dict and ignores factor_order:
+        # outside C18's text, so the dict is given in the visiting order)
+        kw = {"factor_optimisers": {factors[i]: Recorder(c["scripts"], factors, variables, index, tag="own%d" % i, share=rec)
+                                    for i in c["order"]}}
+    elif route == "mixed":
+        kw["factor_optimisers"] = {f: Recorder(c["scripts"], factors, variables, index, tag="own%d" % i, share=rec)
+                                   for i, f in enumerate(factors) if i in c["own"]}
     if c["parallel"]:
         opt = object.__new__(ParallelEPOptimiser)
-        EPOptimiser.__init__(opt, approx.factor_graph, default_optimiser=rec, ep_history=hist,
-                             factor_order=order, updater=make_updater(c["delta"], factors))
+        EPOptimiser.__init__(opt, approx.factor_graph, ep_history=hist,
+                             factor_order=order, updater=make_updater(c["delta"], factors), **kw)
         opt.pool = FakePool()
     else:
-        opt = EPOptimiser(approx.factor_graph, default_optimiser=rec, ep_history=hist,
-                          factor_order=order, updater=make_updater(c["delta"], factors))
+        opt = EPOptimiser(approx.factor_graph, ep_history=hist,
+                          factor_order=order, updater=make_updater(c["delta"], factors), **kw)
     out = {"state0": state_obs(approx, factors, index), "global0": nat(approx.mean_field, index),
            "bits0": state_bits(approx, factors, index)}
-    final = opt.run(approx, max_steps=c["max_steps"])
+
+    def between(o):
+        if c.get("delta2"):
+            o.updater = make_updater(c["delta2"], factors)
+    final, out["n_mid"] = split_run(opt, approx, c["max_steps"], c.get("split"), hist, between)
     out["log"] = log_obs(hist, factors, index)
+    out["mid"] = hist.mid
     out["seen"] = rec.seen
     out["final"] = state_obs(final, factors, index)
     out["access"] = access_obs(hist, factors)
     return out
+
+
+def tokens(fn):
+    try:
+        x = fn()
+        return x if isinstance(x, list) else [x]
+    except exc.HistoryException:
+        return None
 
 
 class Analysis(af.Analysis):
@@ -457,27 +564,69 @@ def model_for(occ, priors):
 
 
 def run_decl(c):
-    # explicit ids: a replayed case behaves exactly as inside a batch
-    priors = [af.GaussianPrior(mean=unhex(mu), sigma=unhex(sg), id_=k) for k, (mu, sg) in enumerate(c["priors"])]
+    # explicit ids: a replayed case behaves exactly as inside a batch.  `ids` / `create`: the id of a prior need not
+    # follow its index, and priors need not be created in index order (ids order prior factors and sorted(priors))
+    nv = len(c["priors"])
+    ids = c.get("ids") or list(range(nv))
+    priors = [None] * nv
+    for k in (c.get("create") or range(nv)):
+        mu, sg = c["priors"][k]
+        priors[k] = af.GaussianPrior(mean=unhex(mu), sigma=unhex(sg), id_=ids[k])
     index = {p: i for i, p in enumerate(priors)}
     declared, hier_groups, expanded = [], [], []
-    for mfac in c["mfactors"]:
+    factors_ref = []      # filled once the graph exists; recorders look factors up at call time
+    rec = Recorder(c["run"]["scripts"] if c.get("run") else [], factors_ref, priors, index)
+    grow = c.get("grow") if c["entry"] == "fgm" else None
+    late_drawn = []
+    twins = {}
+    for mi, mfac in enumerate(c["mfactors"]):
+        own = Recorder(rec.scripts, factors_ref, priors, index, tag="own%d" % mi, share=rec) if mfac.get("own") else None
         if mfac["t"] == "analysis":
-            fac = g.AnalysisFactor(model_for(mfac["occ"], priors), Analysis())
+            kw = {"name": mfac["name"]} if mfac.get("name") is not None else {}
+            if mfac.get("twin_of") is not None:
+                # an equal-but-distinct factor: the SAME model object and the SAME analysis object in a second factor
+                t_model, t_an = twins[mfac["twin_of"]]
+            else:
+                t_model, t_an = model_for(mfac["occ"], priors), Analysis()
+            twins[mi] = (t_model, t_an)
+            fac = g.AnalysisFactor(t_model, t_an, optimiser=own, **kw)
             declared.append(fac)
             expanded.append(fac)
         else:
             kw = {}
             for name, v in zip(("mean", "sigma"), mfac["dist"]):
                 kw[name] = priors[v] if isinstance(v, int) else unhex(v)
+            if own is not None:
+                kw["optimiser"] = own
             h = g.HierarchicalFactor(af.GaussianPrior, **kw)
-            for v in mfac["drawn"]:
+            n_now = len(mfac["drawn"])
+            if grow and str(mi) in grow.get("hier_late", {}):
+                n_now = grow["hier_late"][str(mi)]
+            for v in mfac["drawn"][:n_now]:
                 h.add_drawn_variable(priors[v])
+            late_drawn.append((h, mfac["drawn"][n_now:]))
             declared.append(h)
             hier_groups.append(h)
-            expanded.extend(h.factors)
     if c["entry"] == "single":
         top = declared[0]
+    elif grow:
+        # ONE FactorGraphModel used twice: everything is read on the smaller graph, then factors / drawn variables are
+        # added, and the object must answer like a fresh FactorGraphModel of the full composition
+        top = g.FactorGraphModel(*declared[:grow["n"]], include_prior_factors=c["include"])
+        try:
+            top.prior_counts, top.message_dict, top.priors, top.prior_factors, top.model_factors, top.prior_model
+            top.graph, top.info
+            early = top.mean_field_approximation()
+            early.mean_field
+            for f_ in early.factor_graph.factors:
+                early.factor_approximation(f_)
+        except Exception:  # noqa   (a smaller graph may be degenerate; only the grown object is under test)
+            pass
+        for d_ in declared[grow["n"]:]:
+            top.add(d_)
+        for h, rest in late_drawn:
+            for v in rest:
+                h.add_drawn_variable(priors[v])
     else:
         top = g.FactorGraphModel(*declared, include_prior_factors=c["include"])
     out = {"prior_counts": sorted([index[p], n] for p, n in top.prior_counts),
@@ -500,38 +649,49 @@ def run_decl(c):
     r = c.get("run")
     if not r:
         return out
-    rec = Recorder(r["scripts"], factors, priors, index)
+    factors_ref.extend(factors)
     hist = make_history(factors, r.get("stop"), default=r.get("history") == "default")
+    # ONE EPResult object made before the fit on the history the fit fills, read after every recorded entry: at the
+    # end it must report what a fresh EPResult reports
+    res_early = EPResult(ep_history=hist, declarative_factor=top, updated_ep_mean_field=approx)
+
+    def read_groups(res_):
+        ge = [tokens(lambda: res_.latest_results)]
+        for h in hier_groups:
+            ge.append(tokens(lambda: res_.latest_for(h).results))
+        for fac in top.model_factors:
+            ge.append(tokens(lambda: res_.latest_for(fac)))
+        return ge
+    hist.on_entry = lambda: read_groups(res_early)
     if r["mode"] == "optimise":
         res = top.optimise(rec, ep_history=hist, max_steps=r["max_steps"])
         final = res.updated_ep_mean_field
     else:
         graph = top.graph
         gf = list(graph.factors)
+        kw = {}
+        owners = {fac: fac.optimiser for fac in gf[:nm] if getattr(fac, "optimiser", None) is not None}
+        if owners:
+            kw["factor_optimisers"] = owners
         opt = EPOptimiser(graph, default_optimiser=rec, ep_history=hist,
                           factor_order=[gf[gf.index(factors[i])] for i in r["order"]],
-                          updater=make_updater(r["delta"], factors))
-        final = opt.run(top.mean_field_approximation(), max_steps=r["max_steps"])
+                          updater=make_updater(r["delta"], factors), **kw)
+
+        if r.get("split") is not None:
+            final_mid = opt.run(top.mean_field_approximation(), max_steps=r["split"])
+            out["n_mid"] = len(hist.log)
+            final = opt.run(final_mid, max_steps=r["max_steps"] - r["split"])
+        else:
+            final = opt.run(top.mean_field_approximation(), max_steps=r["max_steps"])
         res = EPResult(ep_history=hist, declarative_factor=top, updated_ep_mean_field=final)
+    out["mid"] = hist.mid
     out["log"] = log_obs(hist, factors, index)
     out["seen"] = rec.seen
     out["final"] = state_obs(final, factors, index)
     out["final_global"] = nat(final.mean_field, index)
     out["access"] = access_obs(hist, factors)
-    groups = []
-
-    def tokens(fn):
-        try:
-            x = fn()
-            return x if isinstance(x, list) else [x]
-        except exc.HistoryException:
-            return None
-    groups.append(tokens(lambda: res.latest_results))
-    for h in hier_groups:
-        groups.append(tokens(lambda: res.latest_for(h).results))
-    for fac in top.model_factors:
-        groups.append(tokens(lambda: res.latest_for(fac)))
-    out["groups"] = groups
+    out["groups"] = read_groups(res)
+    out["groups_early_object"] = read_groups(res_early)
     # EPResult.model: the posterior reported for every path of every model factor
     posterior = []
     try:
